@@ -180,6 +180,8 @@ func fixedCases() []corr.Case {
 			mk("fixed-locks", "locks tklock-i64 6 "+rt, "acq 0 rs "+k5+","+k9+","+k5, "rel 0 r "+k5, "acq 1 w "+k5, "rel 0 rs "+k5+","+k9, "rel 1 w "+k5, "acq 2 ws "+k5+","+k5, "acq 2 rs "+k9+","+k9, "rel 2 rs "+k9+","+k9),
 			mk("fixed-locks", "locks tklock-str 3 "+rt, "acq 0 w "+keyToken("str", "61"), "acq 1 rs "+keyToken("str", "61")+","+keyToken("str", "62"), "rel 0 ws "+keyToken("str", "61"), "rel 1 r "+keyToken("str", "61"), "rel 1 r "+keyToken("str", "62")),
 			mk("fixed-locks", "locks klock 2 "+rt, "acq 0 r "+keyToken("int", "7"), "acq 1 r "+keyToken("int", "7"), "acq 2 w "+keyToken("int", "7"), "rel 0 r "+keyToken("int", "7"), "rel 1 r "+keyToken("int", "7"), "rel 2 w "+keyToken("int", "7")),
+			mk("fixed-locks", "locks semap 73 "+rt, "acqx 0 w "+keyToken("str", "6b"), "acqd 1 r "+keyToken("str", "6b"), "acqx 1 r "+keyToken("str", "6a"), "acqd 2 r "+keyToken("str", "6a"), "acqx 3 w "+keyToken("str", "6a"),
+				"rel 0 w "+keyToken("str", "6b"), "acqd 3 r "+keyToken("str", "6b"), "rel 1 r "+keyToken("str", "6a"), "rel 2 r "+keyToken("str", "6a"), "rel 3 r "+keyToken("str", "6b"), "locks klock 3 "+rt, "acqx 0 w "+keyToken("int", "1")),
 			mk("fixed-locks", "locks semap-r2 73 "+rt, "acq 0 r "+keyToken("str", "6b"), "acq 1 r "+keyToken("str", "6b"), "acq 2 r "+keyToken("str", "6a"), "acq 3 r "+keyToken("str", "6b"), "rel 2 r "+keyToken("str", "6a"), "rel 0 r "+keyToken("str", "6b"), "rel 1 r "+keyToken("str", "6b"), "rel 3 r "+keyToken("str", "6b")),
 			mk("fixed-locks", "locks semap-r1 3 "+rt, "acq 0 r "+keyToken("int", "7"), "acq 1 r "+keyToken("int", "7"), "rel 0 r "+keyToken("int", "7"), "acq 2 w "+keyToken("int", "7"), "rel 1 r "+keyToken("int", "7"), "rel 2 w "+keyToken("int", "7")),
 			mk("fixed-locks", "locks semap 73 "+rt, "acq 0 w "+keyToken("str", "6b"), "acq 1 r "+keyToken("str", "6b"), "rel 0 w "+keyToken("str", "6b"), "acq 2 r "+keyToken("str", "6b"), "acq 3 w "+keyToken("str", "6b"), "rel 1 r "+keyToken("str", "6b"), "rel 2 r "+keyToken("str", "6b"), "rel 3 w "+keyToken("str", "6b")),
@@ -397,6 +399,16 @@ func genLocks(r *rng.R, m int) corr.Case {
 			}
 		}
 		if bad {
+			continue
+		}
+		if capR > 0 && r.Chance(1, 5) {
+			// semaphore maps: the request carries a context that is already cancelled / expired — a free key is granted all the
+			// same, a held one refused without queueing
+			okx := free(ks[0], write)
+			lines = append(lines, fmt.Sprintf("%s %d %s %s", r.Pick("acqx", "acqd"), t, api(write, false), ks[0]))
+			if okx {
+				holds = append(holds, h{t, ks[0], write})
+			}
 			continue
 		}
 		lines = append(lines, fmt.Sprintf("acq %d %s %s", t, api(write, multi), strings.Join(ks, ",")))
